@@ -43,6 +43,7 @@ VARIABLES l, bad, drift
 tvars == <<vars, l, bad, drift>>
 
 TInit == /\ l = 1 /\ bad = <<>> /\ drift = <<>>
+         /\ pmode = "distinct"
          /\ cpc = "idle" /\ follow = FALSE /\ followNow = FALSE
          /\ target = [host |-> "", path |-> ""] /\ host0 = ""
          /\ expect = [host |-> "", path |-> ""] /\ ended = FALSE
@@ -59,7 +60,7 @@ T_Reset ==
   /\ target' = [host |-> E.host, path |-> E.path] /\ host0' = E.host
   /\ sent' = <<>> /\ reqs' = <<>>
   /\ l' = l + 1
-  /\ UNCHANGED <<expect, ended, inflight, resp, got, bad, drift>>
+  /\ UNCHANGED <<pmode, expect, ended, inflight, resp, got, bad, drift>>
 
 T_Req ==
   /\ More /\ E.ev = "Req"
@@ -73,7 +74,7 @@ T_Resp ==
   /\ sent' = Append(sent, inflight')
   /\ cpc' = "read"
   /\ l' = l + 1
-  /\ UNCHANGED <<follow, followNow, target, host0, expect, ended, reqs, resp, got, bad, drift>>
+  /\ UNCHANGED <<pmode, follow, followNow, target, host0, expect, ended, reqs, resp, got, bad, drift>>
 
 T_Done ==
   /\ More /\ E.ev = "Done" /\ E.res = "ok" /\ E.body_ok
@@ -93,7 +94,7 @@ T_OptRedirect ==
   /\ target' = [host |-> E.host, path |-> E.path]
   /\ cpc' = "send"
   /\ drift' = IF Len(drift) < 20 THEN Append(drift, [line |-> l, what |-> "followed a 3xx other than 301/302/307", code |-> resp.code]) ELSE drift
-  /\ UNCHANGED <<follow, followNow, host0, expect, ended, sent, reqs, inflight, resp, got, l, bad>>
+  /\ UNCHANGED <<pmode, follow, followNow, host0, expect, ended, sent, reqs, inflight, resp, got, l, bad>>
 
 Regular == T_Reset \/ T_Req \/ T_Resp \/ T_Done \/ T_Silent \/ T_OptRedirect
 
@@ -127,7 +128,7 @@ T_Stuck ==
                 /\ drift' = drift
         /\ l' = nx
   /\ cpc' = "idle"
-  /\ UNCHANGED <<follow, followNow, target, host0, expect, ended, sent, reqs, inflight, resp, got>>
+  /\ UNCHANGED <<pmode, follow, followNow, target, host0, expect, ended, sent, reqs, inflight, resp, got>>
 
 TNext == Regular \/ T_Stuck
 TSpec == TInit /\ [][TNext]_tvars
